@@ -62,11 +62,18 @@ class TLCResult:
         self.finished = "Model checking completed" in out or "Finished in" in out
 
     def prints(self, tag):
-        """Values printed by PrintT(<<tag, ...>>) – returned as raw strings after the tag."""
+        """Values printed by PrintT(<<tag, ...>>), as raw TLA+ text.  TLC wraps long values over several
+        lines (and then writes `<< "tag",`), so the output is scanned with the value parser, not by line."""
         res = []
-        for l in self.out.splitlines():
-            if l.startswith('<<"' + tag + '"'):
-                res.append(l)
+        text = self.out
+        for m in re.finditer(r'(?m)^<<\s*"' + re.escape(tag) + r'"\s*,', text):
+            ps = _P(text)
+            ps.i = m.start()
+            try:
+                ps.val()
+            except (AssertionError, IndexError):
+                raise MachineryError("cannot parse a %s line of TLC's output near offset %d" % (tag, m.start()))
+            res.append(text[m.start():ps.i])
         return res
 
     def coverage_zero(self):
